@@ -69,7 +69,8 @@ def tree(root):
     return sorted(out)
 
 
-TEMP_MODES = ("default", "outside_uuid", "outside_nouuid", "prefix_sharing", "format_spec")
+TEMP_MODES = ("default", "outside_uuid", "outside_nouuid", "prefix_sharing", "format_spec", "trailing_slash")
+NM = len(TEMP_MODES)
 
 
 def tempdir_format(mode, path, tmpbase):
@@ -83,6 +84,8 @@ def tempdir_format(mode, path, tmpbase):
         return path + ".tmp/part-{uuid}-{partition}", path + ".tmp"
     if mode == "format_spec":
         return os.path.join(tmpbase, "t{partition:03d}-{uuid}"), tmpbase
+    if mode == "trailing_slash":
+        return os.path.join(tmpbase, "tmp-{uuid}-{partition}") + "/", tmpbase
     raise ValueError(mode)
 
 
@@ -122,8 +125,12 @@ def run_one(col, scratch, fid, n, active, kin, npk, mode, compression, previous,
     try:
         if previous != "none":
             nprev = 8 if previous == "larger" else 2
-            prev = dd.from_pandas(make_frame(0, nprev, "pts").assign(val=lambda d: d["val"] + 1000), npartitions=1)
-            prev.pack_partitions_to_parquet(path, npartitions=(12 if previous == "larger" else 1), p=p, _retry_args=RETRY)
+            prevf = make_frame(0, nprev, "pts").assign(val=lambda d: d["val"] + 1000)
+            if previous == "single_file":
+                prevf.to_parquet(path)            # the previous dataset is one parquet FILE at the path
+            else:
+                prev = dd.from_pandas(prevf, npartitions=1)
+                prev.pack_partitions_to_parquet(path, npartitions=(12 if previous == "larger" else 1), p=p, _retry_args=RETRY)
             kw["overwrite"] = True
         col.count("evaluations")
         ret = ddf.pack_partitions_to_parquet(path, **kw)
@@ -201,26 +208,26 @@ def plan(ctx):
                     for npk in range(1, 17):
                         i += 1
                         # rotate the remaining axes in quick so that every value meets every npartitions
-                        modes = TEMP_MODES if T else (TEMP_MODES[i % 5], TEMP_MODES[(i // 5 + 2) % 5])
+                        modes = TEMP_MODES if T else (TEMP_MODES[i % NM], TEMP_MODES[(i // NM + 2) % NM])
                         for mode in dict.fromkeys(modes):
                             comps = ("snappy", "gzip", None) if T and n in (3, 8) else (("snappy", "gzip", None)[(i + len(mode)) % 3],)
                             for comp in comps:
-                                prevs = ("none", "larger", "smaller") if (T and kin == 1) else (("none", "none", "larger", "smaller")[(i + npk) % 4],)
+                                prevs = ("none", "larger", "smaller", "single_file") if (T and kin == 1) else (("none", "none", "larger", "smaller", "single_file")[(i + npk) % 5],)
                                 for prev in prevs:
                                     cases.append((fid, n, active, kin, npk, mode, comp, prev))
     # more than ten INPUT partitions (sub-part files part10.parquet sort before part2.parquet as text)
     for j, npk in enumerate((2, 3, 5) if not T else (1, 2, 3, 4, 5, 8)):
         for active in ("pts", "polys"):
-            cases.append((2, 14, active, 12 + (j % 2) * 2, npk, TEMP_MODES[(j * 2 + 1) % 5], "snappy", "none"))
+            cases.append((2, 14, active, 12 + (j % 2) * 2, npk, TEMP_MODES[(j * 2 + 1) % NM], "snappy", "none"))
     # frames that are row selections of a larger frame with cached partition bounds
     for j, npk in enumerate((1, 2, 3, 4, 6, 9) if not T else range(1, 13)):
         for fid, n in ((0, 5), (0, 8), (2, 14)):
             for active in ("pts", "polys"):
-                cases.append((fid, n, active, 1 + (j + n) % 3, npk, TEMP_MODES[(j + n) % 5], "snappy", "none", 6, "cached_filter"))
+                cases.append((fid, n, active, 1 + (j + n) % 3, npk, TEMP_MODES[(j + n) % NM], "snappy", "none", 6, "cached_filter"))
     for j, npk in enumerate((11, 12, 13, 14, 16) if not T else range(9, 17)):
         for kin in (1, 3):
             for active in ("pts", "polys"):
-                cases.append((2, 14, active, kin, npk, TEMP_MODES[(j + kin) % 5], "snappy", ("none", "larger")[j % 2]))
+                cases.append((2, 14, active, kin, npk, TEMP_MODES[(j + kin) % NM], "snappy", ("none", "larger")[j % 2]))
     return cases
 
 
@@ -238,7 +245,7 @@ def run(ctx):
     core.pmap(ctx, work, NCH, timeout=7200)
     ctx.coverage_extra["runs"] = len(cases)
     ctx.rule = ("frames (two row pools incl. a degenerate extent, n rows, either geometry active) x input partitions 1..3 x "
-                "npartitions 1..16 x tempdir_format (5 kinds) x compression x previous dataset with overwrite=True; in quick "
+                "npartitions 1..16 x tempdir_format (6 kinds, one ending in a slash) x compression x previous dataset (larger, smaller, or a single parquet file) with overwrite=True; in quick "
                 "the last three axes rotate over the full (frame, n, input partitions, npartitions) product. Non-trivial = "
                 "runs in which some requested output partitions came out empty.")
     ctx.assumptions = ["_retry_args=(wait_fixed=1ms, 3 attempts) so that a failing run cannot stall the exploration",
